@@ -86,9 +86,24 @@ def tuple_sort(t):
 def opt_sort(t):
     key = repr(t).replace('bytearray', 'bytes')
     if key not in _tuple_sorts:
+        sfx = re.sub(r'\W+', '_', repr(t.args[0]).replace('bytearray', 'bytes')).strip('_')
         dt = z3.Datatype('Opt_' + re.sub(r'\W+', '_', key))
-        dt.declare('none')
-        dt.declare('some', ('val', sort_of(t.args[0])))
+        # constructor names are unique per sort: z3's SMT-LIB printer does not qualify `none`, so two Optional
+        # sorts in one obligation would not re-parse ("ambiguous constant reference")
+        dt.declare('none_' + sfx)
+        dt.declare('some_' + sfx, ('val_' + sfx, sort_of(t.args[0])))
+        _tuple_sorts[key] = dt.create()
+    return _tuple_sorts[key]
+
+
+def orexc_sort(t):
+    """`orexc[T]`: a T or an Exception instance (heterogeneous buffers: data chunks and exception markers).
+    Constructor 0 = exc(exc_of: Exc), 1 = val(val_of: T)."""
+    key = 'orexc:' + repr(t).replace('bytearray', 'bytes')
+    if key not in _tuple_sorts:
+        dt = z3.Datatype('OrExc_' + re.sub(r'\W+', '_', repr(t.args[0])))
+        dt.declare('exc', ('exc_of', opaque_sort('Exc')))
+        dt.declare('val', ('val_of', sort_of(t.args[0])))
         _tuple_sorts[key] = dt.create()
     return _tuple_sorts[key]
 
@@ -109,16 +124,44 @@ def sort_of(t):
     if k == 'any':
         return opaque_sort('Any')
     if k == 'tag':
-        return opaque_sort('Tag')
+        return IntS        # callable / method references: one integer id per concrete tag (see tag_id)
     if k == 'obj':
         return opaque_sort('Ref_' + t.name)
     if k == 'seq':
         return z3.SeqSort(sort_of(t.args[0]))
+    if k == 'set':
+        return z3.ArraySort(sort_of(t.args[0]), BoolS)      # symbolic set = characteristic function
+    if k == 'float':
+        return z3.RealSort()
     if k == 'tuple':
         return tuple_sort(t)
     if k == 'opt':
         return opt_sort(t)
+    if k == 'orexc':
+        return orexc_sort(t)
+    if k == 'pyobj':
+        return pyobj_sort()
     raise Unsupported(f'no z3 sort for type {t}')
+
+
+_pyobj = []
+
+
+def pyobj_sort():
+    """Dynamically typed Python value (type `pyobj`): None | bool | int | str | list[str] | () | 2-tuple.
+    Used for heterogeneous dict values (the option map of config.py).  Lists are held BY VALUE (no aliasing);
+    True and 1 are distinct values here (Python's True == 1 is not modelled for pyobj)."""
+    if not _pyobj:
+        dt = z3.Datatype('PyObj')
+        dt.declare('py_none')
+        dt.declare('py_bool', ('py_b', BoolS))
+        dt.declare('py_int', ('py_i', IntS))
+        dt.declare('py_str', ('py_s', StrS))
+        dt.declare('py_strlist', ('py_l', z3.SeqSort(StrS)))
+        dt.declare('py_tuple0')
+        dt.declare('py_tuple2', ('py_t0', dt), ('py_t1', dt))
+        _pyobj.append(dt.create())
+    return _pyobj[0]
 
 
 # ----------------------------------------------------------------- values
@@ -202,6 +245,18 @@ class VOpt(V):
         return f'VOpt({self.isnone}, {self.val})'
 
 
+class VOrExc(VOpt):
+    """T | Exception instance: (isexc, val, exc).  Subclass of VOpt with isnone := isexc, so that every operation
+    that needs the T (len, slicing, arithmetic) forks to TypeError on the exception side exactly as for None."""
+    def __init__(self, isexc, val, exc):
+        VOpt.__init__(self, isexc, val)
+        self.isexc, self.exc = isexc, exc
+        self.typ = T('orexc', [val.typ])
+
+    def __repr__(self):
+        return f'VOrExc({self.isexc}, {self.val}, {self.exc})'
+
+
 class VTuple(V):
     def __init__(self, items):
         self.items = tuple(items)
@@ -263,6 +318,16 @@ class VSet(V):
         return f'VSet({set(self.items)})'
 
 
+class VSymSet(V):
+    """Symbolic set of hashable values: characteristic function z : Array elem Bool (type `set[T]`)."""
+    def __init__(self, z, elem):
+        self.z, self.elem = z, parse_type(elem)
+        self.typ = T('set', [self.elem])
+
+    def __repr__(self):
+        return f'VSymSet({self.z})'
+
+
 class VRef(V):
     """Reference to a heap cell (object record or mutable container)."""
     def __init__(self, addr, cls=None):
@@ -280,6 +345,17 @@ class VOpaque(V):
 
     def __repr__(self):
         return f'VOpaque({self.z})'
+
+
+class VPy(V):
+    """Dynamically typed Python value: a term of pyobj_sort()."""
+    typ = T('pyobj')
+
+    def __init__(self, z):
+        self.z = z
+
+    def __repr__(self):
+        return f'VPy({self.z})'
 
 
 class VTag(V):
@@ -378,6 +454,18 @@ def concrete_str(v):
     return None
 
 
+TAG_IDS = {}
+
+
+def tag_id(name):
+    """Stable integer id of a concrete tag (bound method / class / function reference); distinct tags get
+    distinct ids, so a symbolic 'tag' value (an Int) can be compared with a concrete VTag."""
+    name = name.rsplit('.', 1)[-1] if name.startswith('method:') else name
+    if name not in TAG_IDS:
+        TAG_IDS[name] = 1000 + len(TAG_IDS)
+    return TAG_IDS[name]
+
+
 _fresh_ctr = [0]
 
 
@@ -412,19 +500,64 @@ def from_z3(z, t):
         return VOpaque(z, 'Tag')
     if k == 'seq':
         return VSeq(z, t.args[0])
+    if k == 'set':
+        return VSymSet(z, t.args[0])
+    if k == 'float':
+        return VReal(z)
     if k == 'tuple':
         dt = tuple_sort(t)
         return VTuple([from_z3(dt.accessor(0, i)(z), a) for i, a in enumerate(t.args)])
     if k == 'opt':
         dt = opt_sort(t)
         return VOpt(dt.recognizer(0)(z), from_z3(dt.accessor(1, 0)(z), t.args[0]))
+    if k == 'pyobj':
+        return VPy(z)
+    if k == 'orexc':
+        dt = orexc_sort(t)
+        return VOrExc(dt.recognizer(0)(z), from_z3(dt.accessor(1, 0)(z), t.args[0]),
+                      VOpaque(dt.accessor(0, 0)(z), 'Exc'))
     raise Unsupported(f'from_z3: {t}')
+
+
+def py_inject(v):
+    """Value -> term of pyobj_sort() (None, bool, int, str, list of str, (), pair; Optionals of those)."""
+    P = pyobj_sort()
+    if isinstance(v, VPy):
+        return v.z
+    if v is VNone:
+        return P.py_none
+    if isinstance(v, VBool):
+        return P.py_bool(v.z)
+    if isinstance(v, VInt):
+        return P.py_int(v.z)
+    if isinstance(v, VStr):
+        return P.py_str(v.z)
+    if isinstance(v, VOpt):
+        return z3.If(v.isnone, P.py_none, py_inject(v.val))
+    if isinstance(v, VSeq) and v.elem.kind == 'str':
+        return P.py_strlist(v.z)
+    if isinstance(v, VList) and all(isinstance(i, VStr) for i in v.items):
+        return P.py_strlist(to_z3(v, T('seq', [T('str')])))
+    if isinstance(v, VTuple) and len(v.items) == 0:
+        return P.py_tuple0
+    if isinstance(v, VTuple) and len(v.items) == 2:
+        return P.py_tuple2(py_inject(v.items[0]), py_inject(v.items[1]))
+    raise Unsupported(f'py_inject: {v!r} has no pyobj representation')
 
 
 def to_z3(v, t=None):
     """Term of sort_of(t) for value v (t defaults to v.typ)."""
     t = parse_type(t) if t is not None else v.typ
     k = t.kind
+    if k == 'pyobj':
+        return py_inject(v)
+    if k == 'orexc':
+        dt = orexc_sort(t)
+        if isinstance(v, VOrExc):
+            return z3.If(v.isexc, dt.constructor(0)(v.exc.z), dt.constructor(1)(to_z3(v.val, t.args[0])))
+        if isinstance(v, VOpaque) and v.sortname == 'Exc':
+            return dt.constructor(0)(v.z)
+        return dt.constructor(1)(to_z3(v, t.args[0]))
     if k == 'opt':
         dt = opt_sort(t)
         if v is VNone:
@@ -443,5 +576,7 @@ def to_z3(v, t=None):
         us = [z3.Unit(to_z3(i, t.args[0])) for i in v.items]
         return us[0] if len(us) == 1 else z3.Concat(*us)
     if hasattr(v, 'z'):
+        if k in ('opaque', 'any', 'obj') and z3.is_expr(v.z) and v.z.sort() != sort_of(t):
+            raise Unsupported(f'to_z3: {v!r} stored as {t} (no boxing of values into an uninterpreted sort)')
         return v.z
     raise Unsupported(f'to_z3: {v!r} as {t}')
